@@ -177,7 +177,10 @@ func pkgPath(short string) string {
 	if short == "" || short == "rux" {
 		return modPath
 	}
-	return modPath + "/" + short
+	if short == "server" {
+		return modPath + "/server"
+	}
+	return modPath + "/pkg/" + short
 }
 
 // Fn resolves a package-level function ("rux", "combineHandlers") or method
